@@ -147,6 +147,7 @@ void World::gather_handles(uint64_t sub) {
 
 void World::close_file(bool gather, uint64_t sub) {
     if (!is_open) return;
+    if (f2_open) { try { f2.close(); } catch (const std::exception &) {} f2 = nix::none; f2_open = false; }
     live.clear();
     if (gather) gather_handles(sub);
     std::string p = path;
@@ -532,7 +533,7 @@ int World::exec(const Op &op) {
     del_victim.clear(); del_handles.clear(); del_result = false;
     prefer_live = ((op.sub >> 9) & 3) != 0;      // three out of four operations reuse a long-lived handle when there is one
     switch (op.kind) {
-        case OP_flush: case OP_reopen: case OP_kill: case OP_drop: case OP_clock: case OP_flush_fault: case OP_use_stale: case OP_keep:
+        case OP_flush: case OP_reopen: case OP_kill: case OP_drop: case OP_clock: case OP_flush_fault: case OP_use_stale: case OP_keep: case OP_second_view:
             return exec_session(op);
         case OP_ro_catalogue: case OP_mode_probe: case OP_version_cube:
             return exec_special_op(*this, op);
@@ -784,7 +785,7 @@ int World::exec_session(const Op &op) {
         return 0;
     }
     case OP_drop: {
-        if (!is_open) return 2;
+        if (!is_open || f2_open) return 2;
         gather_handles(op.sub);
         std::string old = path;
         Node before = last;
@@ -801,6 +802,26 @@ int World::exec_session(const Op &op) {
         (void) was_ro; (void) before;
         if (!open_file(0, false)) { stop = true; return 0; }
         have_last = false;
+        return 0;
+    }
+    case OP_second_view: {
+        // a second File object on the file that is open (the program opens it once more, ReadOnly, while the first session goes on):
+        // both objects show one file, now and after later operations made through the first one
+        if (!is_open || blind || !have_last) return 2;
+        if (!f2_open) {
+            try { f2 = File::open(open_path(), FileMode::ReadOnly); f2_open = true; cnt.inc("second_view.opened"); }
+            catch (const std::exception &) { f2 = nix::none; return 1; }     // whether a second open is possible at all is libhdf5's business
+        }
+        ObsOpts o; o.check_lookups = lane_prop == "C03";
+        std::vector<std::string> v;
+        Node d2 = observe(f2, o, &v, &getters);
+        for (size_t i = 0; i < v.size() && i < 4; i++) fail(v[i].substr(0, v[i].find(' ')), v[i] + " (through a second File object on the same file)");
+        std::string where;
+        cnt.inc("second_view.compared");
+        arg_class = "second-file-object";
+        if (!failed() && !node_equal(last, d2, where)) fail(lane_prop == "C03" ? "C03.agree-live" : "C02.live-handle", "a second File object opened on the same file shows something else than the first at " + where);
+        // the second object stays open until the session ends: File::close() closes every open object of the underlying HDF5 file,
+        // also those of another File object in the same process (observed on the unchanged tree; no listed property speaks about it)
         return 0;
     }
     case OP_keep: {
